@@ -25,7 +25,7 @@ ASSUMPTIONS = ['hyperframe parses SETTINGS into a dict id->value with 0 <= value
                '(validated against the real parser on boundary values)']
 
 KNOWN = [1, 2, 3, 4, 5, 6, 8]
-UNKNOWN = [0, 7, 9, 0xFFFF]
+UNKNOWN = [0, 7, 9, 0xFF]      # hyperframe keeps only the low 8 bits of an id it sends
 
 
 def expected_code(sid, val):
